@@ -60,7 +60,10 @@ Definition kcase_prop_ok (c : kcase) : bool :=
    MITM CA; h_origin_cert = the presented leaf is byte-identical to the origin's own certificate. *)
 Record hcase := { h_auth : str; h_sni : str; h_asked : str; h_is_ip : bool; h_now : Z; h_v : Z; h_slack : Z;
                   h_filter_match : option bool;   (* None: no mitm-domains list; Some b: the list's verdict on the host *)
-                  h_leaf : option leaf; h_indep : bool; h_origin_cert : bool }.
+                  h_leaf : option leaf; h_indep : bool; h_origin_cert : bool;
+                  (* for a CA the proxy generated itself: the presented chain still verifies one second before the
+                     leaf's own NotAfter (the CA outlives the leaves it signs); true for a CA given by the operator *)
+                  h_ca_covers : bool }.
 
 Definition hcase_intercept (c : hcase) : bool :=
   should_mitm true (match h_filter_match c with Some bv => Some (fun _ => bv) | None => None end) (h_auth c).
@@ -83,7 +86,7 @@ Definition hcase_prop_ok (c : hcase) : bool :=
   match h_filter_match c with
   | Some false => h_origin_cert c                     (* excluded: tunnelled untouched *)
   | _ => match h_leaf c with
-         | Some l => h_indep c && leaf_valid l (h_asked c) (h_is_ip c) (h_now c)
+         | Some l => h_indep c && h_ca_covers c && leaf_valid l (h_asked c) (h_is_ip c) (h_now c)
          | None => false
          end
   end.
